@@ -50,15 +50,19 @@ SCHEMES = dict(
 )
 
 
-def leaf_values(cv, pool, int_pool=None):
+def leaf_values(cv, pool, int_pool=None, tie=False):
     """constant assignment number cv: leaf i takes pool[(cv+i) % len]; leaves that are assigned to an int-typed fluent
-    take the integer sub-pool when one is given."""
+    take the integer sub-pool when one is given.  tie: the comparison constants equal the initial value / the assigned
+    values (c = c3 = x0, c2 = c1 + d), so that the boundary of every numeric comparison is a reachable state."""
     out = {}
     for i, leaf in enumerate(LEAVES):
         pl = pool
         if int_pool is not None and leaf in ("x0", "d", "c1", "c2", "d2", "u0"):
             pl = int_pool
         out[leaf] = pl[(cv + i) % len(pl)]
+    if tie:
+        out["c"] = out["c3"] = out["x0"]
+        out["u0"] = out["x0"]
     return out
 
 
